@@ -175,7 +175,11 @@ def ro_programs(draw, tier):
     sc = draw(gen.state_case(n=(2, 3), nh=(1, 3), na=(1, 2), scales=[0.05, 0.5, 2.0], bound=30.0))
     ops = [{"op": draw(st.sampled_from(RO + RO + MUT)), "obs": draw(st.sampled_from(OBSN)), "basis": draw(gen.basis_string(sc["n"])),
             "idx": draw(gen.index_list(sc["n"], 2, 4)), "k": draw(st.integers(0, 2)), "overwrite": draw(st.booleans())} for _ in range(draw(st.integers(2, 10)))]
-    return {"state": sc, "ops": ops, "seed": draw(st.integers(0, 2 ** 31 - 1))}
+    c = {"state": sc, "ops": ops, "seed": draw(st.integers(0, 2 ** 31 - 1))}
+    if sc["type"] == "density" and draw(st.booleans()):
+        # a user may put ANY values into the parameters (e.g. by loading a file); read-only operations must not touch them
+        c["ph_aux_bias"] = draw(gen.flist(sc["na"], 2.0))
+    return c
 
 
 def check_readonly(c):
@@ -184,6 +188,8 @@ def check_readonly(c):
     sc = c["state"]
     n, t = sc["n"], sc["type"]
     state = gen.build_state(sc)
+    if c.get("ph_aux_bias"):
+        state.rbm_ph.aux_bias.data.copy_(torch.tensor(c["ph_aux_bias"], dtype=torch.double))
     qucumber.set_random_seed(c["seed"], cpu=True, gpu=False, quiet=True)
     space = state.generate_hilbert_space()
     snap = params_flat(state)
